@@ -49,6 +49,20 @@ def _worker(arg):
         cs = CoinState.empty()
         for a in node.parent.chain():
             cs = cs.add_block_no_validation(a.block)
+        # a second state: the same parent chain as a NON-active side branch next to a longer competing chain (what is checked
+        # for a block must not depend on whether it extends the chain the node currently follows)
+        cs_side = None
+        if len(p) >= 2:
+            try:
+                cs_side = CoinState.empty().add_block_no_validation(uni.root.block)
+                for k in range(1, len(p) + 2):
+                    cs_side = cs_side.add_block_no_validation(uni.get(('x',) * k).block)
+                for a in node.parent.chain()[1:]:
+                    cs_side = cs_side.add_block_no_validation(a.block)
+                if cs_side.current_chain_hash != uni.get(('x',) * (len(p) + 1)).bid:
+                    cs_side = None
+            except Exception:
+                cs_side = None
         raw = node.block.serialize()
         if raw != node.ser:
             st['encoding_differs_from_reference'] += 1
@@ -95,6 +109,16 @@ def _worker(arg):
                 return
             st['decoded'] += 1
             second = ''
+            if cs_side is not None:
+                try:
+                    cs_side.add_block(Block.deserialize(mut), max(now, cs_side.head().timestamp))
+                    st['accepted'] += 1
+                    if len(bad) < 5:
+                        bad.append(('mutant-accepted-on-side-branch', "block %s (%d bytes): %s gives another acceptable block when the "
+                                    "block's chain is a side branch next to a longer active chain" % ('/'.join(p), len(raw), desc), kind, p, desc))
+                    return
+                except Exception:
+                    pass
             try:
                 cs.add_block(b, now)
             except Exception as e:
